@@ -55,8 +55,11 @@ body of the enclosing function, on the AST, with no semantic analysis.
          fill whose result is mediated "<that function>".
    Writes to V by any other callee (read(), fgets(), a callee storing through a
    pointer argument) are NOT seen.  This is the stated limit of the rule.
- Guard of V: a call `legal_path(x)` ANYWHERE in the function (no dominance, no check
- that its result is tested) where x peels to DeclRef V.
+ A fill whose destination is neither `V` nor an alias shape counts as an appending fill
+ of every local/parameter pointer it mentions.
+ Guard of V: a call `legal_path(x)`, x peeling to DeclRef V, ANYWHERE in the function
+ (no dominance: the site may textually precede it, and it is not checked that the
+ result is tested), provided no event of V lies textually after that call.
 
  Nearest preceding definition (applied uniformly).  For a read of V at position t the
  reaching events are computed textually:
@@ -66,7 +69,11 @@ body of the enclosing function, on the AST, with no semantic analysis.
      statement, a declaration, or the condition of an if/switch, S is a DIRECT child of
      a compound statement B, B contains t, and no case/default label of a switch that
      started before S lies between S and t.  (So S is executed on every path that
-     reaches t from the top of B.)  If the function contains goto/labels there is no D.
+     reaches t from the top of B.)  Also accepted: the event sits in the left operand
+     of an `&&` (`||`) whose right operand contains t and is reached inside that left
+     operand only through unconditional operands and right operands of the same
+     operator (`a && (V = f()) && use(V)`).  If the function contains goto/labels
+     there is no D.
    * events before D are dropped; events between D and t are all kept (joined),
      whatever branch they sit in; events after t are kept only if a while/do/for loop
      contains both the event and t and does not contain D.
@@ -80,6 +87,10 @@ body of the enclosing function, on the AST, with no semantic analysis.
    integer 0 / NULL                      null (harmless)
    call check_valid_path(..)             mediated "check_valid_path"
    call strrchr/strchr/strstr/strpbrk    origin of its first argument
+   call G(..), G defined with a body in the same translation unit: the join (rule 1-4
+                                          below) of the origins of all `return e;` of G,
+                                          each e classified inside G; if harmless:
+                                          derived "G()+.." [leaves], else other
    `config_str[..]`/`config_int[..]` (CONFIG_STR/CONFIG_INT), a global `config_*`
                                           config "<text>"
    `X->d_name`, X only defined by readdir(d), d only defined by opendir(W)
@@ -88,7 +99,7 @@ body of the enclosing function, on the AST, with no semantic analysis.
    DeclRef to local/parameter V          origin of V, below
    anything else (globals, members, other calls)   other "<source text>"
  Origin of V from its reaching events (sources classified recursively, depth <=
- MAX_DEPTH, a variable re-entered at the same position contributes nothing):
+ MAX_DEPTH = 6, a variable re-entered at the same position contributes nothing):
    1. some reaching def is `V = check_valid_path(..)`: mediated "check_valid_path",
       provided every other source is mediated/derived/literal/null/config, else other.
    2. else V has a guard: mediated "legal_path".
@@ -97,7 +108,10 @@ body of the enclosing function, on the AST, with no semantic analysis.
       k-th argument); no events: param k for a parameter, other for a local.
    4. else all harmless: a `med` event -> mediated "<via>"; only plain assignments
       from one and the same origin -> that origin; otherwise
-      derived "<callees, '+'-joined>" [leaf origins, sorted, deduplicated].
+      derived "<fill callees / 'assign' / 'G()' / 'readdir' of all levels, sorted,
+      '+'-joined>" [leaf origins of all levels, sorted, deduplicated].
+ A use of an FS_CALLEES function other than as a callee (address taken) is emitted as a
+ site row `other "address of <f> taken"`.
 
 CALLS: for every function F with a `param k` site (or, transitively, a `param k` call
 row; MAX_CALL_DEPTH rounds, then a synthetic `other` row) every CallExpr to F in the
@@ -106,6 +120,7 @@ F is only looked up in its own translation unit.  For a non-static F the other
 `src/`, `lib/` *.c/*.cpp files (not tests/) are grepped for `\\bF\\s*(`; each hit that is
 not a definition/prototype line becomes a row `other "unscanned caller file:line"`.
 A use of F other than as a callee becomes a row `other "address of F taken"`.
+A `param k` site of a function without any call row has no caller in src/ or lib/.
 """
 import argparse
 import concurrent.futures
@@ -172,6 +187,9 @@ class SitesError(Exception):
         Exception.__init__(self, "%s: %s" % (site, msg))
         self.site = site
         self.msg = msg
+
+    def __reduce__(self):
+        return (SitesError, (self.site, self.msg))
 
 
 # ---------------------------------------------------------------------------- AST utilities
@@ -268,6 +286,7 @@ class Fn:
         self.calls = []
         self.events = {}
         self.guards = set()
+        self.guard_pos = {}
         self.aliases = {}   # V id -> set of alias var ids
         self._index()
         self._collect()
@@ -469,6 +488,10 @@ class Fn:
                 if n.get("init") and init:
                     self._add_event(n["id"], dict(kind="def", pos=self.epos(n), node=n, rhs=init[-1],
                                                   via="assign", full=True, dom=self._dominfo(n)))
+                    if is_ptr(n) and not is_array(n):
+                        b = self.base_var(init[-1])
+                        if b is not None and b != n["id"]:
+                            self.aliases.setdefault(b, set()).add(n["id"])
             elif k == "BinaryOperator" and n.get("opcode") == "=":
                 v = self.local_ref(n["inner"][0])
                 if v is not None:
@@ -484,7 +507,7 @@ class Fn:
                 if name in GUARDS and len(args) > GUARDS[name]:
                     v = self.local_ref(args[GUARDS[name]])
                     if v is not None:
-                        self.guards.add(v)
+                        self.guard_pos.setdefault(v, []).append(self.epos(n))
                 if name in MEDIATOR_FILLS and len(args) > MEDIATOR_FILLS[name]:
                     v = self.local_ref(args[MEDIATOR_FILLS[name]])
                     if v is not None:
@@ -496,11 +519,11 @@ class Fn:
                         dest = args[di]
                         v = self.local_ref(dest)
                         exact = v is not None
+                        targets = [v] if v is not None else []
                         if v is None:
-                            refs = sorted(set(self.local_refs_in(dest)))
-                            if len(refs) == 1:
-                                v = refs[0]
-                        if v is not None:
+                            b = self.base_var(dest)
+                            targets = [b] if b is not None else sorted(set(self.local_refs_in(dest)))
+                        for v in targets:
                             if sidx is None:
                                 srcs = [a for i, a in enumerate(args) if i != di and (is_ptr(a) or is_ptr(peel(a)))]
                             else:
@@ -520,6 +543,10 @@ class Fn:
                     self._add_event(v, ev2)
         for v in self.events:
             self.events[v].sort(key=lambda e: e["pos"])
+        for v, gps in self.guard_pos.items():
+            last = max([e["pos"] for e in self.events.get(v, [])] or [-1])
+            if any(g > last for g in gps):
+                self.guards.add(v)
 
     # ---- reaching events
     def _dominates(self, ev, k):
@@ -828,7 +855,18 @@ class TU:
 
 
 def analyze_file(job):
-    """worker: parse one translation unit, return its rows (picklable)"""
+    """worker wrapper: errors travel back as values (a custom exception does not always survive
+    the process pool), the parent re-raises them"""
+    try:
+        return _analyze_file(job)
+    except SitesError as ex:
+        return dict(error=(ex.site, ex.msg))
+    except BaseException as ex:   # noqa: anything else is a translator failure for this file
+        return dict(error=(job[1], "translator failed: %r" % (ex,)))
+
+
+def _analyze_file(job):
+    """parse one translation unit, return its rows (picklable)"""
     repo, rel, path, flags = job
     if not os.path.isfile(path):
         raise SitesError(rel, "listed file is missing: %s" % path)
@@ -921,7 +959,10 @@ def analyze_file(job):
         for x in fn.nodes:
             if x["kind"] == "DeclRefExpr" and x.get("id") not in callee_nodes:
                 r = x.get("referencedDecl") or {}
-                if r.get("kind") == "FunctionDecl":
+                if r.get("kind") == "FunctionDecl" and r.get("name") in FS_CALLEES:
+                    out["sites"].append(dict(file=frel, fn=fn.name, callee=r["name"], arg=0, line=fn.line(x),
+                                             origin=["other", "address of %s taken" % r["name"]]))
+                elif r.get("kind") == "FunctionDecl":
                     df = decl_file.get(r.get("id"))
                     if df is not None and not df.startswith("/usr/"):
                         out["addr"].append(dict(file=frel, tu=rel, caller=fn.name, callee=r.get("name"),
@@ -1033,6 +1074,8 @@ def analyze(repo, bdir, include_flags, overrides=None, jobs=None):
     results = []
     with concurrent.futures.ProcessPoolExecutor(max_workers=jobs or min(len(work), os.cpu_count() or 4)) as ex:
         for res in ex.map(analyze_file, work):
+            if "error" in res:
+                raise SitesError(res["error"][0], res["error"][1])
             results.append(res)
     scanned = set(files)
     sites, calls, addr, defs = [], [], [], []
@@ -1059,12 +1102,11 @@ def analyze(repo, bdir, include_flags, overrides=None, jobs=None):
     order = []
 
     def need(fname, ffile, k, depth):
-        key = (fname, k)
+        sc = scope_of(fname, ffile)
+        key = (fname, k, tuple(sc) if sc is not None else None)
         if key not in needed:
             needed[key] = (ffile, depth)
             order.append(key)
-            return True
-        return False
 
     for s in sites:
         if s["origin"][0] == "param":
@@ -1072,14 +1114,13 @@ def analyze(repo, bdir, include_flags, overrides=None, jobs=None):
     rows = []
     i = 0
     while i < len(order):
-        fname, k = order[i]
-        ffile, depth = needed[(fname, k)]
+        fname, k, scope = order[i]
+        ffile, depth = needed[order[i]]
         i += 1
         if depth >= MAX_CALL_DEPTH:
             rows.append(dict(file=ffile, caller="<depth-limit>", callee=fname, arg=k, line=0,
                              origin=["other", "caller chain deeper than %d" % MAX_CALL_DEPTH]))
             continue
-        scope = scope_of(fname, ffile)
         for c in calls:
             if c["callee"] != fname or (scope is not None and c["tu"] not in scope):
                 continue
@@ -1091,10 +1132,10 @@ def analyze(repo, bdir, include_flags, overrides=None, jobs=None):
             if a["callee"] == fname and (scope is None or a["tu"] in scope):
                 rows.append(dict(file=a["file"], caller=a["caller"], callee=fname, arg=k, line=a["line"],
                                  origin=["other", "address of %s taken" % fname]))
-    nonstatic = sorted(set(f for (f, k) in order if scope_of(f, needed[(f, k)][0]) is None))
+    nonstatic = sorted(set(f for (f, k, sc) in order if sc is None))
     for h in grep_unscanned(repo, nonstatic, scanned):
-        for (f, k) in order:
-            if f == h["callee"]:
+        for (f, k, sc) in order:
+            if f == h["callee"] and sc is None:
                 rows.append(dict(file=h["file"], caller="?", callee=f, arg=k, line=h["line"],
                                  origin=["other", "unscanned caller %s:%d" % (h["file"], h["line"])]))
     rows = dedup(rows, ("file", "caller", "callee", "arg", "line"))
